@@ -764,4 +764,6 @@ val conv_wrap : unit -> symbol -> unit * char list
 
 val conv_count : nat -> symbol -> nat * char list
 
+val conv_broken : unit -> symbol -> unit * char list
+
 val conv_empty : unit -> symbol -> unit * char list
